@@ -677,7 +677,12 @@ class Gaussian(Funsor, metaclass=GaussianMeta):
 
     def _eager_subs_real(self, subs, remaining_subs):
         # Broadcast all component tensors.
-        subs = OrderedDict(subs)
+        subs = OrderedDict(
+            (k, Tensor(ops.new_full(self.white_vec, (), v.data)))
+            if isinstance(v, Number)
+            else (k, v)
+            for k, v in subs
+        )
         int_inputs = OrderedDict(
             (k, d) for k, d in self.inputs.items() if d.dtype != "real"
         )
